@@ -171,6 +171,12 @@ func (rm *RpcMultiplexer) NewStreamReadWriter(
 				return nil, err
 			}
 			if !ok {
+				// A stream whose own context has ended is unregistered by its
+				// teardown (e.g. by a SendMsg that observed the cancellation):
+				// report the cancellation, not the unregistration it caused.
+				if err := ctx.Err(); err != nil {
+					return nil, err
+				}
 				if err := rm.readErrorIfDone(); err != nil {
 					return nil, err
 				}
